@@ -57,7 +57,7 @@ func Pools(quick bool) []PoolDef {
 	// hostname pool
 	var hostPats []string
 	for _, h := range []string{"a.b", "b.a.b", "{h}.b", "a.{t}", "a{m}.b"} {
-		for _, p := range []string{"/", "/a", "/a/", "/{p0}", "/*{c0}"} {
+		for _, p := range []string{"/", "/a", "/a/", "/{p0}", "/*{c0}", "/{p0}/a"} {
 			hostPats = append(hostPats, h+p)
 		}
 	}
@@ -139,7 +139,7 @@ func roundTrip(pat *ref.Pattern, kv []ref.KV, host, path string) string {
 	i := 0
 	for _, t := range pat.HostToks {
 		if t.Kind == ref.Param {
-			if strings.ContainsAny(vals[i], "./") {
+			if strings.Contains(vals[i], ".") {
 				return fmt.Sprintf("host parameter %q=%q contains a delimiter", t.Name, vals[i])
 			}
 			i++
